@@ -472,17 +472,31 @@ pub struct SecureChunk {
     generation: u32,
     pool_id: u32,
     canary: u32,
+    /// Alignment of the data area (the pool's configured alignment, at least 8)
+    align: usize,
 }
 
 impl SecureChunk {
+    /// Offset of the data area inside the raw allocation: the header is placed directly in
+    /// front of the data, and the data starts at a multiple of `align`
+    fn data_offset(align: usize) -> usize {
+        let header_size = std::mem::size_of::<ChunkHeader>();
+        (header_size + align - 1) & !(align - 1)
+    }
+
     /// Create a new secure chunk with validation metadata
-    fn new(size: usize, generation: u32, pool_id: u32) -> Result<Self> {
+    fn new(size: usize, generation: u32, pool_id: u32, align: usize) -> Result<Self> {
         let canary = fastrand::u32(..);
+        let align = align.max(8);
         let header_size = std::mem::size_of::<ChunkHeader>();
         let footer_size = std::mem::size_of::<ChunkFooter>();
-        let total_size = header_size + size + footer_size;
+        let data_offset = Self::data_offset(align);
+        let total_size = data_offset
+            .checked_add(size)
+            .and_then(|n| n.checked_add(footer_size))
+            .ok_or_else(|| ZiporaError::invalid_data("Invalid layout for chunk allocation"))?;
 
-        let layout = Layout::from_size_align(total_size, 8)
+        let layout = Layout::from_size_align(total_size, align)
             .map_err(|_| ZiporaError::invalid_data("Invalid layout for chunk allocation"))?;
 
         let raw_ptr = unsafe { alloc(layout) };
@@ -490,8 +504,8 @@ impl SecureChunk {
             return Err(ZiporaError::out_of_memory(size));
         }
 
-        // Initialize header
-        let header = raw_ptr as *mut ChunkHeader;
+        // Initialize header (directly in front of the data area)
+        let header = unsafe { raw_ptr.add(data_offset - header_size) } as *mut ChunkHeader;
         unsafe {
             (*header) = ChunkHeader {
                 magic: CHUNK_HEADER_MAGIC,
@@ -504,18 +518,18 @@ impl SecureChunk {
             };
         }
 
-        // Initialize footer
-        let footer_ptr = unsafe { raw_ptr.add(header_size + size) as *mut ChunkFooter };
+        // Initialize footer (the chunk size need not be a multiple of 8: unaligned write)
+        let footer_ptr = unsafe { raw_ptr.add(data_offset + size) as *mut ChunkFooter };
         unsafe {
-            (*footer_ptr) = ChunkFooter {
+            footer_ptr.write_unaligned(ChunkFooter {
                 canary,
                 generation,
                 magic: CHUNK_FOOTER_MAGIC,
-            };
+            });
         }
 
-        // Return pointer to data area (after header)
-        let data_ptr = unsafe { raw_ptr.add(header_size) };
+        // Return pointer to data area (after header), aligned as configured
+        let data_ptr = unsafe { raw_ptr.add(data_offset) };
 
         Ok(Self {
             ptr: unsafe { NonNull::new_unchecked(data_ptr) },
@@ -523,6 +537,7 @@ impl SecureChunk {
             generation,
             pool_id,
             canary,
+            align,
         })
     }
 
@@ -566,7 +581,7 @@ impl SecureChunk {
 
         // Validate footer
         let footer_ptr = unsafe { self.ptr.as_ptr().add(self.size) as *const ChunkFooter };
-        let footer = unsafe { &*footer_ptr };
+        let footer = unsafe { footer_ptr.read_unaligned() };
 
         if footer.magic != CHUNK_FOOTER_MAGIC {
             return Err(ZiporaError::invalid_data(&format!(
@@ -629,16 +644,15 @@ impl SecureChunk {
             }
         }
 
-        let header_size = std::mem::size_of::<ChunkHeader>();
         let footer_size = std::mem::size_of::<ChunkFooter>();
-        let total_size = header_size + self.size + footer_size;
+        let data_offset = Self::data_offset(self.align);
+        let total_size = data_offset + self.size + footer_size;
 
-        let raw_ptr = unsafe { self.ptr.as_ptr().sub(header_size) };
+        let raw_ptr = unsafe { self.ptr.as_ptr().sub(data_offset) };
         // SAFETY: Layout::from_size_align() cannot fail because:
-        // 1. total_size was successfully used to allocate this chunk
-        // 2. Alignment of 8 is always valid (power of 2)
-        // 3. self.size was validated during allocation
-        let layout = Layout::from_size_align(total_size, 8).unwrap();
+        // 1. total_size and self.align were successfully used to allocate this chunk
+        // 2. self.size was validated during allocation
+        let layout = Layout::from_size_align(total_size, self.align).unwrap();
 
         unsafe {
             dealloc(raw_ptr, layout);
@@ -1100,7 +1114,12 @@ impl SecureMemoryPool {
         }
 
         // Fall back to regular allocation
-        let mut chunk = SecureChunk::new(self.config.chunk_size, generation, self.pool_id)?;
+        let mut chunk = SecureChunk::new(
+            self.config.chunk_size,
+            generation,
+            self.pool_id,
+            self.config.alignment,
+        )?;
 
         // SIMD-optimized memory zeroing on allocation if configured
         if self.config.zero_on_alloc {
@@ -1292,6 +1311,7 @@ impl SecureMemoryPool {
                 generation,
                 pool_id: self.pool_id,
                 canary: header.canary,
+                align: self.config.alignment.max(8),
             };
 
             if let Err(e) = chunk.validate() {
